@@ -44,9 +44,10 @@ var (
 	TokenKeywords = []string{"in", "and", "or", "not", "true", "false", "as", "export"}
 
 	// The verbatim tags as the lexer recognises them at its current position. Like in
-	// any other tag the blanks around the tag's name are optional.
-	reVerbatimStart = regexp.MustCompile(`^\{%[ \t]*verbatim[ \t]*%\}`)
-	reVerbatimEnd   = regexp.MustCompile(`^\{%[ \t]*endverbatim[ \t]*%\}`)
+	// any other tag the blanks around the tag's name are optional, and a carriage
+	// return is one of them (a tag does not span lines: no line feed).
+	reVerbatimStart = regexp.MustCompile(`^\{%[ \t\r]*verbatim[ \t\r]*%\}`)
+	reVerbatimEnd   = regexp.MustCompile(`^\{%[ \t\r]*endverbatim[ \t\r]*%\}`)
 )
 
 // eof is what the lexer's next()/peek() return at the end of the input. It lies
